@@ -100,16 +100,28 @@ fn term_trip_f32__complete() {
 #[kani::proof]
 #[kani::unwind(12)]
 #[kani::stub(alloc::fmt::format, fmt_stub)]
-fn term_trip_bool_unit_option__complete() {
+fn term_trip_bool__complete() {
     let b: bool = kani::any();
     let tb = crate::to_term(&b).unwrap();
     let rb = crate::from_term::<bool>(&tb);
     match &rb { Ok(x) => assert!(*x == b), Err(_) => assert!(false) }
     std::mem::forget(rb); std::mem::forget(tb);
+}
+
+#[kani::proof]
+#[kani::unwind(12)]
+#[kani::stub(alloc::fmt::format, fmt_stub)]
+fn term_trip_unit__complete() {
     let tu = crate::to_term(&()).unwrap();
     let ru = crate::from_term::<()>(&tu);
     assert!(ru.is_ok());
     std::mem::forget(ru); std::mem::forget(tu);
+}
+
+#[kani::proof]
+#[kani::unwind(12)]
+#[kani::stub(alloc::fmt::format, fmt_stub)]
+fn term_trip_option_i32__complete() {
     let o: Option<i32> = kani::any();
     let to = crate::to_term(&o).unwrap();
     let ro = crate::from_term::<Option<i32>>(&to);
